@@ -36,6 +36,17 @@ func c08r1011(p *model.Prog, r *report.Result, runLoop *ssa.Function) {
 				}
 				return
 			}
+			// the computation extracted into a helper: its returned values are the leaves
+			if c, ok := v.(*ssa.Call); ok {
+				if ce := c.Call.StaticCallee(); ce != nil && model.IsLal(ce) && ce.Blocks != nil && !model.SameFunc(model.CalleeObj(c.Common()), lenObj) {
+					for _, ret := range model.ReturnsOf(ce) {
+						for _, rv := range model.ReturnValues(ret) {
+							walk(rv)
+						}
+					}
+					return
+				}
+			}
 			leaves = append(leaves, v)
 		}
 		walk(arg)
@@ -158,8 +169,24 @@ func c08r1011(p *model.Prog, r *report.Result, runLoop *ssa.Function) {
 // field is only ever filled from the wire.
 func c08r1314(p *model.Prog, r *report.Result, runLoop *ssa.Function) {
 	r.Rule("C08.R13", "in ChunkComposer.RunLoop the chunk format (bootstrap[0] >> 6) is taken from the scratch buffer before any later read refills it: the load that feeds the '>> 6' is not reachable, within one iteration, from any io.ReadAtLeast into the buffer other than the first one of the iteration (the 2- and 3-byte chunk-stream-id forms re-use bootstrap[0] for the id bytes)")
+	// the function that holds the format load (RunLoop, or the helper the basic-header parsing
+	// was extracted into)
+	holder := runLoop
+	for _, g := range model.StaticGroup(runLoop, 2) {
+		model.EachInstr(g, func(in ssa.Instruction) {
+			if bo, ok := in.(*ssa.BinOp); ok && bo.Op == token.SHR {
+				if k, isK := model.ConstInt(bo.Y); isK && k == 6 {
+					if ld, isL := bo.X.(*ssa.UnOp); isL {
+						if _, isIA := ld.X.(*ssa.IndexAddr); isIA {
+							holder = g
+						}
+					}
+				}
+			}
+		})
+	}
 	var reads []ssa.CallInstruction
-	for _, ci := range model.AllCalls(runLoop) {
+	for _, ci := range model.AllCalls(holder) {
 		if o := model.CalleeObj(ci.Common()); o != nil && o.Pkg() != nil && o.Pkg().Path() == "io" && (o.Name() == "ReadAtLeast" || o.Name() == "ReadFull") {
 			reads = append(reads, ci)
 		}
@@ -177,7 +204,7 @@ func c08r1314(p *model.Prog, r *report.Result, runLoop *ssa.Function) {
 		}
 	}
 	var fmtLoads []ssa.Instruction
-	model.EachInstr(runLoop, func(in ssa.Instruction) {
+	model.EachInstr(holder, func(in ssa.Instruction) {
 		bo, ok := in.(*ssa.BinOp)
 		if !ok || bo.Op != token.SHR {
 			return
@@ -194,20 +221,20 @@ func c08r1314(p *model.Prog, r *report.Result, runLoop *ssa.Function) {
 		}
 	})
 	if first == nil || len(fmtLoads) == 0 {
-		r.Bad("C08.R13", fkey(runLoop, "format", "floor"), p.Pos(runLoop.Pos()), "the first read of the iteration or the format load was not found")
+		r.Bad("C08.R13", fkey(holder, "format", "floor"), p.Pos(holder.Pos()), "the first read of the iteration or the format load was not found")
 	} else {
-		hdr := loopHeaderOf(runLoop, first.Block())
+		hdr := loopHeaderOf(holder, first.Block())
 		for _, ld := range fmtLoads {
 			stale := false
 			for _, rd := range reads {
 				if rd == first {
 					continue
 				}
-				if (model.PathQuery{From: rd, LoopHeader: hdr, Target: func(in ssa.Instruction) bool { return in == ld }}).Find(runLoop) != nil {
+				if (model.PathQuery{From: rd, LoopHeader: hdr, Target: func(in ssa.Instruction) bool { return in == ld }}).Find(holder) != nil {
 					stale = true
 				}
 			}
-			r.Check(!stale, "C08.R13", fkey(runLoop, "format", "from-first-byte"), p.InstrPos(ld), "format taken before the buffer is refilled", "the chunk format is taken from bootstrap[0] after a later read may have overwritten it (the extra chunk-stream-id bytes of the 2- and 3-byte forms land in bootstrap[0]): for csid >= 64 the format comes from the id byte and the chunk header is parsed with the wrong layout")
+			r.Check(!stale, "C08.R13", fkey(holder, "format", "from-first-byte"), p.InstrPos(ld), "format taken before the buffer is refilled", "the chunk format is taken from bootstrap[0] after a later read may have overwritten it (the extra chunk-stream-id bytes of the 2- and 3-byte forms land in bootstrap[0]): for csid >= 64 the format comes from the id byte and the chunk header is parsed with the wrong layout")
 		}
 	}
 
